@@ -492,7 +492,7 @@ def check_c22(case, log, oc, labels):
                 continue
             got = ("done" if ok else "fail", t1)
             matches_want = want[0] in ("tie", got[0]) and close(t1, want[1]) and (ok or r.get("exc") == "NetworkFailure")
-            if not matches_want and not in_lat and any(w[0] == got[0] and close(t1, w[1]) for w in want_capped) and (ok or r.get("exc") == "NetworkFailure"):
+            if not matches_want and want[0] != "unspecified" and any(w[0] == got[0] and close(t1, w[1]) for w in want_capped) and (ok or r.get("exc") == "NetworkFailure"):
                 oc.bad("comm-ignores-bandwidth-increase", "%s: communication of %r bytes started at %r (latency %r) %s at %r: it never went faster than the bandwidth in force "
                        "when it was created (%r B/s) although the profile raised it meanwhile; latency + the integral of the bandwidth profile give: %s at %r"
                        % (who, size, t0, L, "ended" if ok else "failed", t1, cap, want[0], want[1]))
